@@ -254,6 +254,33 @@ def _check_eq_numeric_labels(case):
     return 5, "ok", (kind, a, b), viols
 
 
+COMPENSATING = (
+    ("I", ((0, 1, "a"), (1, 2, "b"), (3, 4, "c")), ((0, 1, "a"), (2, 3, "b"), (3, 4, "c"))),       # an entry moved across a gap: same boundary set, labels, count, span
+    ("I", ((0, 1, "a"), (1, 3, "b"), (3, 4, "c")), ((0, 3, "a"), (3, 4, "b"), (4, 4.5, "c"))),
+    ("I", ((0, 2, "a"), (2, 3, "a")), ((0, 1, "a"), (1, 3, "a"))),                                     # same labels, same total length, same span
+    ("P", ((1, "a"), (1, "b"), (2, "c")), ((1, "a"), (2, "b"), (2, "c"))),                           # a point moved onto another existing time
+    ("P", ((1, "a"), (2, "b")), ((1, "b"), (2, "a"))),                                               # labels exchanged
+    ("I", ((0, 1, "a"), (2, 3, "b")), ((0, 1, "b"), (2, 3, "a"))),
+)
+
+
+def _check_eq_compensating(case):
+    """two tiers that differ in SEVERAL fields at once while every aggregate of them (the set of boundary times, the list / multiset of labels, the
+    count, the span, the total duration) is the same: different tiers"""
+    kind, A, B = COMPENSATING[case]
+    ta, tb = _mk(kind, A, "t", 0, 5), _mk(kind, B, "t", 0, 5)
+    viols = []
+    if (ta == tb) or (tb == ta) or not (ta != tb) or not (tb != ta):
+        viols.append(Viol("eq-compensating-differences", f"{kind} tiers {A} and {B} (same boundary set, labels, count and span): == gives {ta == tb} / {tb == ta}, "
+                                                         f"!= gives {ta != tb}"))
+    tga, tgb = Textgrid(0, 5), Textgrid(0, 5)
+    tga.addTier(ta)
+    tgb.addTier(tb)
+    if tga == tgb:
+        viols.append(Viol("eq-compensating-differences", f"textgrids holding the {kind} tiers {A} and {B}: == gives True"))
+    return 5, "ok", (kind, case), viols
+
+
 def _check_eq(case):
     kind, E = case
     E = list(E)
@@ -537,6 +564,10 @@ def parts(tier):
                   rule="every tier of <=2 entries x every single-field perturbation (name, span, type, one label, entry count, one timestamp by "
                        "1e-3) => unequal both ways; reflexive, symmetric; the same inside textgrids; tier count and order",
                   bounds={}),
+        InputPart("equality-compensating-differences", lambda: range(len(COMPENSATING)), _check_eq_compensating,
+                  rule="%d pairs of tiers that differ in several fields at once while the set of boundary times, the labels, the count, the span and the total "
+                       "duration agree (an entry moved across a gap, a point moved onto another time, labels exchanged): unequal, both ways, as tiers and inside "
+                       "textgrids" % len(COMPENSATING), bounds={}),
         InputPart("equality-number-like-labels", lambda: ((k, a, b) for k in ("I", "P") for a in NUM_LABELS for b in NUM_LABELS), _check_eq_numeric_labels,
                   rule="all ordered pairs of %d labels whose text reads as a number ('132' / '132.0', '1e2' / '100', '7' / '07', 'nan', 'inf', '-0' / '0' ...) as the "
                        "only difference between two tiers / textgrids: equal exactly when the texts are equal, both ways, == and != consistent, reflexive" % len(NUM_LABELS),
